@@ -1101,6 +1101,12 @@ def build_inventory():
         txt = open(mf).read()
         secs = re.split(r"(?m)^(?=\[)", txt)
         inv["crate:" + c_] = sorted(norm(re.sub(r"(?m)#.*$", "", x_)) for x_ in secs if re.match(r"\[(?:dependencies|features|build-dependencies|target\.|lib|patch|replace|profile)", x_))
+    from rs2coq import strip_comments as _sc
+    for c_ in sorted(os.listdir(REPO + "/crates")):        # module structure, feature gates and re-exports of every crate root
+        lib = os.path.join(REPO, "crates", c_, "src", "lib.rs")
+        if os.path.isfile(lib):
+            txt = _sc(open(lib).read())
+            inv["lib:" + c_] = [norm(m.group(0)) for m in re.finditer(r"(?:#!?\[[^\]]*\]\s*)*(?:pub\s+)?(?:use|mod|extern crate)\b[^;{]*(?:\{[^}]*\})?[^;]*;|#!\[[^\]]*\]", txt)]
     inv["extra_build_files"] = sorted(f_ for f_ in [".cargo/config.toml", ".cargo/config", "rust-toolchain", "rust-toolchain.toml", "build.rs"] + ["crates/%s/build.rs" % c_ for c_ in os.listdir(REPO + "/crates")]
                                       if os.path.exists(os.path.join(REPO, f_)))
     return inv
@@ -1122,7 +1128,7 @@ def inventory_asserts():
     inv = json.load(open(INVENTORY_FILE))
     for pid in sorted(set(ENTRIES) | set(ASSERTS)):
         ASSERTS.setdefault(pid, []).append(dict(name="build_configuration", file=REPO + "/Cargo.toml", build=inv.get("/build"),
-            message="the build configuration differs from the audited one (workspace manifest sections, a crate's [dependencies]/[features], or a new .cargo/config, rust-toolchain or build.rs)"))
+            message="the build configuration differs from the audited one (workspace manifest sections, a crate's [dependencies]/[features], the module structure / feature gates / re-exports of a crate root, or a new .cargo/config, rust-toolchain or build.rs)"))
         for f_ in files_of(pid) + TRAITS_FILES:
             rel = f_[len(REPO):]
             ASSERTS.setdefault(pid, []).append(dict(name="api_surface_" + rel.replace("/crates/", "").replace("/src/", "_").replace("/", "_").replace(".rs", ""),
